@@ -322,7 +322,16 @@ def main():
             execs = 0
             if not args.no_shrink:
                 sh = Shrinker(mod, ctx, plan, sig, max_execs=mod.SHRINK_EXECS, log=lambda s: print("  shrink: " + s, flush=True))
-                plan = sh.run()
+                try:
+                    plan = sh.run()
+                except HarnessError:
+                    raise
+                except Exception as e:      # a bug in the minimiser must not hide the violation: report the best plan reached so far
+                    import traceback
+
+                    traceback.print_exc()
+                    print("  shrink: stopped by %s: %s (reporting the smallest failing plan found so far)" % (type(e).__name__, e), flush=True)
+                    plan = sh.best
                 execs = sh.execs
             res1 = mod.execute(ctx, plan, {})
         finally:
